@@ -90,6 +90,10 @@ def run_spec(spec, tier, seed, replay=None):
     # 1. translators
     tfail = vlib.run_translators()
     for t in tfail:
+        # a translator whose output only one property's theorems import breaks only that property
+        scope = {"lockorder2coq.py": {"C20"}}.get(t["translator"])
+        if scope is not None and spec.pid not in scope:
+            continue
         broken.append({"kind": "translator", **t})
 
     # 2. proofs
